@@ -185,6 +185,12 @@ func newWorld(cf *cdnFile, cs *c34Case, r *rand.Rand) *cdnWorld {
 		servedHashes: map[int64]bool{}, firstCut: -1, eventsFired: map[string]int{}, eventDone: map[int]bool{},
 		pendingReup: map[string]bool{},
 	}
+	if cs.Mode != "verify-master" {
+		// invariant of the server model, whatever the generator drew: hash windows
+		// of CDN files keep their nominal (4 KiB-multiple) limit, the client uses
+		// window limits as CDN request limits
+		cs.TailActual = false
+	}
 	w.windows = makeWindows(r, cf.f.data, cs.WinStyle, cs.Part, cs.TailActual)
 	return w
 }
